@@ -13,6 +13,7 @@ Tie (this file): random sequences of envelope and body segments are fed
     flattening of a structured document?) and a structural `recount` over the parsed structure.
 impl != oracle -> violation with a rule-like key;  impl == oracle but impl != model -> correspondence broken.
 """
+import hashlib
 import io
 import os
 import random
@@ -433,17 +434,22 @@ def judge(segs, chk, out, end, where):
     want = recount(doc, chk)
     if out != want:
         coded = recount(doc, chk, coded=True)
-        pos = next(i for i in range(max(len(out), len(want))) if i >= len(out) or i >= len(want) or out[i] != want[i])
-        got_i = out[pos] if pos < len(out) else None
-        want_i = want[pos] if pos < len(want) else None
-        sid = segs[pos][0] if pos < len(segs) else 'cleanup'
-        if out == coded:
-            key = 'pred:hl-blank-parent-keeps-closed-tree'
-        else:
-            diff = sorted(set(got_i or []) ^ set(want_i or [])) or [('order', '')]
-            key = 'pred:recount-differs:%s:%s' % (sid, '%s:%s' % diff[0])
-        bad.append((key, 'segment %d (%s): reader reports %s, the recount says %s' % (pos + 1, sid, got_i, want_i),
-                    fmt_errs(want)))
+        seen = set()
+        for pos in range(max(len(out), len(want))):
+            got_i = out[pos] if pos < len(out) else None
+            want_i = want[pos] if pos < len(want) else None
+            if got_i == want_i:
+                continue
+            sid = segs[pos][0] if pos < len(segs) else 'cleanup'
+            if pos < len(coded) and got_i == coded[pos]:
+                key = 'pred:hl-blank-parent-keeps-closed-tree'      # differs only by the reader's blank-parent rule (D37)
+            else:
+                diff = sorted(set(got_i or []) ^ set(want_i or [])) or [('order', '')]
+                key = 'pred:recount-differs:%s:%s' % (sid, '%s:%s' % diff[0])
+            if key not in seen:
+                seen.add(key)
+                bad.append((key, 'segment %d (%s): reader reports %s, the recount says %s' % (pos + 1, sid, got_i, want_i),
+                            fmt_errs(want)))
     return cls, bad
 
 
@@ -811,7 +817,7 @@ def work(args):
                 bump(agg['codes'], '%s:%s' % e)
         vs = [view(s) for s in segs]
         if len(segs) >= 3:
-            agg['hashes'].add(hash((chk, tuple(vs))))
+            agg['hashes'].add(hashlib.blake2b(repr((chk, vs)).encode('utf-8', 'surrogatepass'), digest_size=8).digest())
         istr = impl_string(out, end)
         rep = {'call': 'X12Reader over the segments; pop_errors() after each segment and after cleanup()',
                'check_837_lx': chk, 'segments': [[s[0], list(s[1])] for s in segs], 'text': ''.join(seg_text(s) + '~' for s in segs)[:3000],
@@ -856,6 +862,50 @@ def work(args):
     return agg
 
 
+def int_cases(tier):
+    """texts for the int() correspondence: every string over a small alphabet up to a length bound, the digit-count
+    limit, and every ASCII character as prefix / suffix / infix of a digit"""
+    import itertools
+    alpha = [' ', '\t', '+', '-', '_', '0', '1', '9', 'X', '\x0b', '\x1c', '.']
+    maxlen = 6 if tier == 'thorough' else 5
+    for n in range(0, maxlen + 1):
+        for tup in itertools.product(alpha, repeat=n):
+            yield ''.join(tup)
+    for c in range(0, 128):
+        ch = chr(c)
+        for t in (ch + '1', '1' + ch, '1' + ch + '2', ch, ' ' + ch + '7 '):
+            yield t
+    for k in (MAXDIG - 1, MAXDIG, MAXDIG + 1):
+        yield '1' * k
+        yield '0' * k
+        yield '+' + '7' * k + ' '
+        yield '_'.join('1' * k)
+        yield '1' * k + '_'
+
+
+def int_stage(res, tier, built):
+    """Lean pyInt and the oracle's py_int against CPython int(), which is all X12Base._int adds a try/except to"""
+    cases = list(int_cases(tier))
+    model = common.run_model([common.line('ENVINT', t) for t in cases]) if built else None
+    bad_model = bad_oracle = 0
+    for i, t in enumerate(cases):
+        try:
+            v = int(t)
+        except ValueError:
+            v = None
+        res.count()
+        if py_int(t) != v:
+            bad_oracle += 1
+            if bad_oracle <= 3:
+                res.broke('oracle:py_int', 'py_int(%r) = %r, int() gives %r' % (t[:40], py_int(t), v))
+        if model is not None and model[i] != ('none' if v is None else str(v)):
+            bad_model += 1
+            if bad_model <= 3:
+                res.broke('correspondence:Envelope.pyInt', 'text %r (len %d): int() gives %s, model %s' %
+                          (t[:40], len(t), 'none' if v is None else str(v)[:40], model[i][:40]))
+    res.notes['int_correspondence'] = {'texts': len(cases), 'model_disagreements': bad_model, 'oracle_disagreements': bad_oracle}
+
+
 def merge(total, a):
     for k in ('n', 'dis', 'state_cmp', 'unfixed_model_agrees', 'unfixed_model_differs'):
         total[k] = total.get(k, 0) + a[k]
@@ -877,6 +927,7 @@ def run(tier):
                        'every int() form, duplicates, HL/LX numbering, open tail), structural mutations of those, balanced bracket '
                        'words in arbitrary nesting order, independent draws from a small pool, and the ledger recipes')
     built = common.proof_stage(res, 'C04')
+    int_stage(res, tier, built)
     total_cases = 1000000 if tier == 'thorough' else 20000
     seed = common.seed()
     total = {}
